@@ -612,6 +612,87 @@ def rule_r6(facts, rep, rid="C16-R6"):
     rep.floor(rid, "hash-ordered loops that write graph state", n, 1)
 
 
+def _self_other_field(e):
+    """`self.f` / `other.f` / `&self.f` -> ('self'|'other'|name, field)"""
+    while e is not None and e.get("k") in ("addrof", "unary"):
+        e = e["e"]
+    if e is not None and e.get("k") == "field":
+        b = e["e"]
+        while b is not None and b.get("k") in ("addrof", "unary"):
+            b = b["e"]
+        if b is not None and b.get("k") == "path" and b.get("res") == "local":
+            return (b.get("name"), e["name"])
+    return None
+
+
+def rule_r8(facts, rep, rid="C16-R8", only=None, floor=6):
+    """Sorting and de-duplicating with the natural order (`sorted()`, `sort()`, `dedup()`, BTree keys) removes the hash order only if that order is total *and* agrees with ==:
+    two different values that compare Equal keep their incoming (hash) order under a stable sort and are not adjacent for dedup.  Derived Ord/PartialOrd on a type with derived
+    PartialEq is the lexicographic order over all fields, which is.  A hand-written order is accepted only if it visibly is that order: a chain of `self.f.cmp(&other.f)` over every
+    field of the type, each field compared with itself, nothing else compared."""
+    n = 0
+    ordered = {}
+    for i in facts.impls:
+        t = fb.last_seg(i.get("trait") or "")
+        if t in ("Ord", "PartialOrd", "PartialEq", "Eq", "Hash") and (i.get("unit") or "").split("-")[0] in ("liwe", "iwes", "iwe") and "::tests::" not in (i.get("self") or ""):
+            ordered.setdefault(i["self"], {})[t] = i
+    for ty, tr in sorted(ordered.items()):
+        if "Ord" not in tr and "PartialOrd" not in tr:
+            continue
+        for t in ("Ord", "PartialOrd", "PartialEq", "Hash"):
+            if t not in tr:
+                continue
+            if only and fb.last_seg(ty) not in only:
+                continue
+            n += 1
+            key = "%s|%s" % (ty, t)
+            i = tr[t]
+            if i.get("derived"):
+                rep.ok(rid, key, "derived (lexicographic over all fields, consistent with the derived ==)", "%s:%s" % (i.get("file"), i.get("line")))
+                continue
+            if t == "Hash":
+                rep.violation(rid, key, "%s has a hand-written Hash next to its order and ==: the three notions of `same value` (hash + ==, order) can disagree - map lookups, sort and dedup "
+                              "then treat different values as one or one value as two" % fb.last_seg(ty), "%s:%s" % (i.get("file"), i.get("line")))
+                continue
+            if t == "PartialEq":
+                rep.violation(rid, key, "%s has a hand-written == next to its order: `a == b` and `a.cmp(b) == Equal` can disagree, and then sort + dedup neither orders nor "
+                              "de-duplicates the hash-ordered input" % fb.last_seg(ty), "%s:%s" % (i.get("file"), i.get("line")))
+                continue
+            adt = facts.adts.get(ty)
+            fields = [fl["name"] for v in (adt or {}).get("variants", []) for fl in v.get("fields", [])] if adt and adt.get("kind") == "struct" else None
+            meth = "cmp" if t == "Ord" else "partial_cmp"
+            fns = [f for f in facts.body_fns() if f.def_.endswith("::" + meth) and (f.impl_self or "") == ty and fb.last_seg(f.impl_trait or "") == t]
+            why = None
+            if fields is None or len(fns) != 1:
+                why = "its shape cannot be read (%d fns, %s)" % (len(fns), "struct" if fields is not None else "not a struct")
+            else:
+                f = fns[0]
+                rep.saw_fn(f)
+                calls = [y for y in fb.walk(f.body) if (y.get("k") == "mcall" and y["name"] in ("cmp", "partial_cmp", "total_cmp") and y.get("args")) or
+                         (y.get("k") == "binary" and y["op"] in ("<", ">", "<=", ">=", "==", "!="))]
+                seen = []
+                delegates = t == "PartialOrd" and any(y.get("k") in ("mcall", "call") and (fb.callee(y) or "").endswith("::cmp") and _self_other_field(y.get("recv") or {}) is None
+                                                      for y in fb.walk(f.body)) and "Ord" in tr
+                if delegates and len(calls) == 1:
+                    rep.ok(rid, key, "partial_cmp = Some(self.cmp(other))", f.loc)
+                    continue
+                for y in calls:
+                    l = _self_other_field(y["recv"] if y.get("k") == "mcall" else y["l"])
+                    r = _self_other_field(y["args"][0] if y.get("k") == "mcall" else y["r"])
+                    if l is None or r is None or l[1] != r[1] or l[0] == r[0]:
+                        why = "it compares `%s`, which is not a field of one value against the same field of the other" % fb.show(y)[:60]
+                        break
+                    seen.append(l[1])
+                if why is None and seen != fields:
+                    why = "it compares %s while the type's fields are %s: values that differ elsewhere compare Equal" % (seen, fields)
+            if why:
+                rep.violation(rid, key, "hand-written %s for %s is not visibly the lexicographic order over all its fields (%s); `sorted()` / `dedup()` on hash-ordered %ss then leave ties in hash "
+                              "order and duplicates apart" % (t, fb.last_seg(ty), why, fb.last_seg(ty)), "%s:%s" % (i.get("file"), i.get("line")))
+            else:
+                rep.ok(rid, key, "hand-written, lexicographic over all fields %s" % fields, "%s:%s" % (i.get("file"), i.get("line")))
+    rep.floor(rid, "Ord / PartialOrd / PartialEq / Hash impls of ordered workspace types", n, floor)
+
+
 def run(facts, rep, tier):
     rep.rule("C16-R1", "Hash-order taint: every iteration over a HashMap/HashSet (and every call of a fn returning such data) must end in an "
              "order-insensitive sink (collect into map/set, len/any/all/contains/min/max, total sort) before it reaches a return value, "
@@ -635,3 +716,6 @@ def run(facts, rep, tier):
     rep.rule("C16-R7", "= C04-R6: notes inserted one by one end up with the index a bulk load builds, whatever the order: per-note indexes are merged by per-key union.")
     from . import c04 as _c04
     _c04.rule_r6(facts, rep, "C16-R7")
+    rep.rule("C16-R8", "The natural order used by sorted() / sort() / dedup() is total and agrees with ==: Ord, PartialOrd and PartialEq of every ordered workspace type (NodePath, Key, Position) "
+             "are derived, or a hand-written order visibly compares every field with itself in declaration order.")
+    rule_r8(facts, rep)
